@@ -31,7 +31,7 @@ func init() {
 		},
 		NumCases: func(tier string) int {
 			if tier == "thorough" {
-				return 60000
+				return 100000
 			}
 			return 3000
 		},
